@@ -31,7 +31,7 @@ def jobs(tier):
     else:
         sh = sched.thorough_shapes(always=True)
     sweep = [("C05", s, "sweep") for s in [("L",), ("L", "L"), (("D", True, ("L",)),), (("D", False, ("L", "L")),)]]
-    return [("C05", s) for s in sh] + sharded(sweep, 8)
+    return sharded(sweep, 8) + [("C05", s) for s in sh]      # the long sweep shards first
 
 
 def harness(job, ch):
